@@ -15,8 +15,15 @@ actions (`arrive m` for any fresh request id m while the broker still has the su
 
 Hypotheses: w ≥ 1 where stated (`c20_w0_counterexample` shows why), `Stop` is called at most once
 and after `Serve` started (the initial state is `Serve` subscribed with its workers started; the
-model's `stopCall` is enabled once), healthy connection (no action models an error return of
-`Drain`/`Flush`/`Barrier`; nats.go and the broker follow the contract stated in the model file).
+model's `stopCall` is enabled once); nats.go and the broker follow the contract stated in the model
+file. A connection fault (`fault`: connection closed by the application, broker gone, link stalled
+beyond the flush timeout) may happen at any point; after it the drain step may fail (`drainFail`).
+What the property demands then: everything the server had TAKEN OVER (the handler reached its send
+to the work queue) is processed exactly once and its reply handed to the connection before `Serve`
+returns, `Stop` and `Serve` return, nothing is processed twice, no send on the closed queue; what
+only the broker or nats.go had (in flight, pending) may be lost with the connection, and "nothing
+accepted after `Stop` returned" is claimed when the drain was not disturbed. The workers' reply path
+is modelled down to the processor's write mutex (lock / write / oversize → error reply / unlock).
 -/
 import FV.Model.NatsServer
 import FV.Proofs.NatsServer
@@ -25,8 +32,8 @@ namespace FV.C20
 open FV.NS
 
 /-- No request is processed twice — in every reachable state, for every worker count (also 0),
-queue length, arrival sequence and schedule. Neither is a reply published twice, and nothing is
-processed that did not arrive. -/
+queue length, arrival sequence, schedule, with or without a connection fault. Neither is a reply
+published twice, and nothing is processed that did not arrive. -/
 theorem c20_at_most_once (w q : Nat) (s : Sys) (hr : Reachable w q s) (m : Msg) :
     s.processed.count m ≤ 1 ∧ s.replied.count m ≤ s.processed.count m ∧
     (m ∈ s.processed → m ∈ s.arrived) := by
@@ -34,24 +41,28 @@ theorem c20_at_most_once (w q : Nat) (s : Sys) (hr : Reachable w q s) (m : Msg) 
   have h1 := hi.cnt m
   have h2 := hi.nodup m
   have h3 := hi.proc m
-  simp only [loc, List.count_append] at h1
+  simp only [loc, held, List.count_append] at h1
   refine ⟨by omega, by omega, ?_⟩
   intro hm
   have : 0 < s.processed.count m := List.count_pos_iff.mpr hm
   exact List.count_pos_iff.mp (by omega)
 
-/-- State form of exactly-once: when `Serve` has returned, every request the broker ever accepted
-for the subscription has been processed exactly once and its reply published exactly once, and
-nothing is left anywhere (in flight, pending, in the callback, in `workC`, in a worker). -/
+/-- State form of exactly-once: when `Serve` has returned, every request the server took over
+(the handler reached its send to the work queue) has been processed exactly once and its reply
+handed to the connection exactly once, and nothing is left with the handler, in `workC` or in a
+worker — with or without a connection fault. Without a fault this covers EVERY request the
+broker ever accepted for the subscription: nothing is in flight, pending or dropped. -/
 theorem c20_exactly_once_all (w q : Nat) (hw : 1 ≤ w) (s : Sys) (hr : Reachable w q s)
     (hret : s.serve = .returned) :
-    (∀ m ∈ s.arrived, s.processed.count m = 1 ∧ s.replied.count m = 1) ∧
-    s.inflight = [] ∧ s.pending = [] ∧ s.cb = .idle ∧ s.workC = [] ∧ (∀ x ∈ s.workers, x = .exited) := by
+    (∀ m ∈ s.handed, s.processed.count m = 1 ∧ s.replied.count m = 1) ∧
+    s.cb = .idle ∧ s.workC = [] ∧ (∀ x ∈ s.workers, x = .exited) ∧
+    (s.faulty = false → s.inflight = [] ∧ s.pending = [] ∧ s.dropped = [] ∧
+      ∀ m ∈ s.arrived, s.processed.count m = 1 ∧ s.replied.count m = 1) := by
   have hi := reachable_sinv hr
   have hlen := (reachable_params hr).1
   have hrank : rank s.serve = 7 := by rw [hret]; rfl
-  have hinf := hi.infl (by omega)
-  have hpend := hi.pend (by omega)
+  have hcl : s.closed = true := hi.clo.mpr (by omega)
+  have hcb := hi.cidle hcl
   have hall := hi.ret hret
   have hex : Wk.exited ∈ s.workers := by
     cases hws : s.workers with
@@ -71,117 +82,148 @@ theorem c20_exactly_once_all (w q : Nat) (hw : 1 ≤ w) (s : Sys) (hr : Reachabl
         subst ha
         simp [busyList, wkMsgs, ih (fun x hx => h x (List.mem_cons_of_mem _ hx))]
     exact this _ hall
-  refine ⟨?_, hinf, hpend.1, hpend.2, hq, hall⟩
+  have key : ∀ m, 0 < s.handed.count m → s.processed.count m = 1 ∧ s.replied.count m = 1 := by
+    intro m h4
+    have h1 := hi.cnt m
+    have h2 := hi.nodup m
+    have h3 := hi.proc m
+    have h5 := hi.hcnt m
+    simp only [loc, held, hcb, hq, hbusy, cbMsgs, List.count_append, List.count_nil] at h1 h3 h5
+    omega
+  refine ⟨fun m hm => key m (List.count_pos_iff.mpr hm), hcb, hq, hall, ?_⟩
+  intro hf
+  have hinf := hi.infl hf (by omega)
+  have hpend := (hi.pend hf (by omega)).1
+  have hdrp := hi.drp hf
+  refine ⟨hinf, hpend, hdrp, ?_⟩
   intro m hm
+  apply key
   have h1 := hi.cnt m
-  have h2 := hi.nodup m
-  have h3 := hi.proc m
+  have h5 := hi.hcnt m
   have h4 : 0 < s.arrived.count m := List.count_pos_iff.mpr hm
-  simp only [loc, hinf, hpend.1, hpend.2, hq, hbusy, cbMsgs, List.count_append, List.count_nil] at h1 h3
+  simp only [loc, hinf, hpend, hdrp, List.count_append, List.count_nil] at h1
   omega
 
 /-- The property as stated: take ANY run in which `Stop` is called at some point (`as₁`, then
-`stopCall`, then `as₂`, with arbitrary arrivals and scheduling before and after). If `Serve` has
-returned at the end, every request that had arrived when `Stop` was called has been processed
-exactly once and its reply has been published (exactly once). -/
+`stopCall`, then `as₂`, with arbitrary arrivals, scheduling and possibly a connection fault before
+or after). If `Serve` has returned at the end, every request the server had taken over when `Stop`
+was called has been processed exactly once and its reply handed to the connection exactly once;
+and if no fault happened, so has every request the broker had accepted when `Stop` was called. -/
 theorem c20_exactly_once (w q : Nat) (hw : 1 ≤ w) (as₁ as₂ : List Action) (s₁ s₂ s : Sys)
     (h₁ : run (init w q) as₁ = some s₁) (hstop : step s₁ .stopCall = some s₂) (h₂ : run s₂ as₂ = some s)
     (hret : s.serve = .returned) :
-    ∀ m ∈ s₁.arrived, s.processed.count m = 1 ∧ s.replied.count m = 1 := by
-  intro m hm
+    (∀ m ∈ s₁.handed, s.processed.count m = 1 ∧ s.replied.count m = 1) ∧
+    (s.faulty = false → ∀ m ∈ s₁.arrived, s.processed.count m = 1 ∧ s.replied.count m = 1) := by
   have hr₁ : Reachable w q s₁ := ⟨as₁, h₁⟩
   have hr : Reachable w q s := reachable_run (reachable_step hr₁ hstop) h₂
-  have hm2 : m ∈ s.arrived := (run_mono h₂).2.2 m ((step_mono hstop).2.2 m hm)
-  exact (c20_exactly_once_all w q hw s hr hret).1 m hm2
+  have hall := c20_exactly_once_all w q hw s hr hret
+  constructor
+  · intro m hm
+    exact hall.1 m ((run_mono h₂).2.2.2.1 m ((step_mono hstop).2.2.2.1 m hm))
+  · intro hf m hm
+    exact (hall.2.2.2.2 hf).2.2.2 m ((run_mono h₂).2.2.1 m ((step_mono hstop).2.2.1 m hm))
 
-/-- Nothing that arrives after `Stop` returned is processed: once `Stop` has its result (so in
-particular once it has returned) the broker has processed the UNSUB — no arrival is accepted in
-that state or in any later one, so the set of accepted requests is frozen, and only accepted
-requests are ever processed. -/
+/-- Nothing that arrives after `Stop` returned is processed: once `Stop` has its result after an
+undisturbed drain (no fault so far: `Stop` returns nil) the broker has processed the UNSUB — no
+arrival is accepted in that state or in any later one, whatever happens later, so the set of
+accepted requests is frozen, and only accepted requests are ever processed. -/
 theorem c20_none_after_stop (w q : Nat) (s : Sys) (hr : Reachable w q s)
-    (hst : s.stop = .gotResult ∨ s.stop = .returned) (as : List Action) (s' : Sys) (h : run s as = some s') :
+    (hst : s.stop = .gotResult ∨ s.stop = .returned) (hnf : s.faulty = false)
+    (as : List Action) (s' : Sys) (h : run s as = some s') :
     (∀ m, step s' (.arrive m) = none) ∧ s'.arrived = s.arrived ∧ (∀ m ∈ s'.processed, m ∈ s.arrived) := by
-  have frozen : ∀ (t : Sys), Reachable w q t → (t.stop = .gotResult ∨ t.stop = .returned) → t.active = false := by
-    intro t ht hts
-    have hi := reachable_sinv ht
-    cases hact : t.active with
+  have hi := reachable_sinv hr
+  have hinact : s.active = false := by
+    cases hact : s.active with
     | false => rfl
     | true =>
-      have hlt := hi.act.mp hact
-      by_cases h0 : rank t.serve = 0
-      · have := hi.st0 h0; rcases this with h | h <;> rcases hts with h' | h' <;> rw [h] at h' <;> cases h'
-      · have := hi.st1 (by omega) (by omega); rcases hts with h' | h' <;> rw [this] at h' <;> cases h'
-  have later : ∀ (t : Sys), run s as = some t → (t.stop = .gotResult ∨ t.stop = .returned) := by
-    intro t ht
-    have := (run_mono ht).2.1
-    rcases hst with h0 | h0 <;> rw [h0] at this <;> simp only [stopRank] at this <;>
-      cases hts : t.stop <;> rw [hts] at this <;> simp at this ⊢
-  -- arrivals are disabled in every state of the run, so `arrived` never changes
-  have hkeep : ∀ (as : List Action) (t t' : Sys), Reachable w q t → (t.stop = .gotResult ∨ t.stop = .returned) →
-      run t as = some t' → t'.arrived = t.arrived := by
+      have hlt := (hi.act hnf).mp hact
+      by_cases h0 : rank s.serve = 0
+      · have := hi.st0 h0; rcases this with h | h <;> rcases hst with h' | h' <;> rw [h] at h' <;> cases h'
+      · have := hi.st1 (by omega) (by omega); rcases hst with h' | h' <;> rw [this] at h' <;> cases h'
+  have hkeep : ∀ (as : List Action) (t t' : Sys), t.active = false → run t as = some t' →
+      t'.arrived = t.arrived ∧ t'.active = false := by
     intro as
     induction as with
-    | nil => intro t t' _ _ h; simp [run] at h; rw [h]
+    | nil => intro t t' ht h; simp [run] at h; rw [← h]; exact ⟨rfl, ht⟩
     | cons a as ih =>
-      intro t t' ht hts h
+      intro t t' ht h
       simp only [run] at h
       split at h
       · rename_i t1 h1
-        have hina := frozen t ht hts
-        have hts1 : t1.stop = .gotResult ∨ t1.stop = .returned := by
-          have := (step_mono h1).2.1
-          rcases hts with h0 | h0 <;> rw [h0] at this <;> simp only [stopRank] at this <;>
-            cases hx : t1.stop <;> rw [hx] at this <;> simp at this ⊢
         have e1 : t1.arrived = t.arrived := by
           cases a <;> simp only [step] at h1 <;> (repeat' split at h1) <;> cases h1 <;> simp_all
-        rw [ih t1 t' (reachable_step ht h1) hts1 h, e1]
+        have e2 := (step_mono h1).2.2.2.2 ht
+        have := ih t1 t' e2 h
+        exact ⟨this.1.trans e1, this.2⟩
       · cases h
-  have hr' := reachable_run hr h
-  have hst' := later s' h
-  have harr := hkeep as s s' hr hst h
-  refine ⟨?_, harr, ?_⟩
-  · intro m
-    have := frozen s' hr' hst'
-    simp [step, this]
+  have hk := hkeep as s s' hinact h
+  have hr' : Reachable w q s' := reachable_run hr h
+  refine ⟨?_, hk.1, ?_⟩
+  · intro m; simp [step, hk.2]
   · intro m hm
-    rw [← harr]
+    rw [← hk.1]
     exact (c20_at_most_once w q s' hr' m).2.2 hm
 
-/-- `close(workC)` happens only when the callback goroutine is idle with nothing pending and
-nothing more can come, so no send on the closed channel is ever attempted: the panic flag is
-never set, and once `workC` is closed `handlerEnqueue` is not enabled in any reachable state. -/
+/-- `close(workC)` never happens under a send, with or without a connection fault: Serve closes
+only when no handler is inside its send (`sendMu`), and once `workC` is closed no handler enters
+it (`cbStart` turns the request away), so the panic flag is never set and `handlerEnqueue` is not
+enabled in any reachable closed state. Without a fault nothing is even left to turn away: the
+close happens with nothing pending or in flight. -/
 theorem c20_no_send_on_closed (w q : Nat) (s : Sys) (hr : Reachable w q s) :
     s.panicked = false ∧
-    (s.closed = true → s.cb = .idle ∧ s.pending = [] ∧ s.inflight = [] ∧ s.active = false ∧
-      step s .handlerEnqueue = none) ∧
-    (∀ s', step s .closeWorkC = some s' → s.cb = .idle ∧ s.pending = [] ∧ s.inflight = [] ∧ s.active = false) := by
+    (s.closed = true → s.cb = .idle ∧ step s .handlerEnqueue = none) ∧
+    (∀ s', step s .closeWorkC = some s' → s.cb = .idle) ∧
+    (s.faulty = false → s.closed = true → s.pending = [] ∧ s.inflight = [] ∧ s.active = false ∧ s.dropped = []) := by
   have hi := reachable_sinv hr
-  have key : 4 < rank s.serve → s.cb = .idle ∧ s.pending = [] ∧ s.inflight = [] ∧ s.active = false := by
-    intro h
-    have h1 := hi.pend (by omega)
-    have h2 := hi.infl (by omega)
-    refine ⟨h1.2, h1.1, h2, ?_⟩
-    cases hact : s.active with
-    | false => rfl
-    | true => have := hi.act.mp hact; omega
-  refine ⟨hi.pan, ?_, ?_⟩
+  refine ⟨hi.pan, ?_, ?_, ?_⟩
   · intro hc
-    have h := key (by have := hi.clo.mp hc; omega)
-    exact ⟨h.1, h.2.1, h.2.2.1, h.2.2.2, by simp [step, h.1]⟩
+    have h := hi.cidle hc
+    exact ⟨h, by simp [step, h]⟩
   · intro s' hs
     simp only [step] at hs
     split at hs
-    · rename_i h; exact key (by rw [h]; simp [rank])
+    · rename_i h; exact h.2 hi.gd
     · cases hs
+  · intro hf hc
+    have h5 := hi.clo.mp hc
+    refine ⟨(hi.pend hf (by omega)).1, hi.infl hf (by omega), ?_, hi.drp hf⟩
+    cases hact : s.active with
+    | false => rfl
+    | true => have := (hi.act hf).mp hact; omega
 
 /-- No deadlock: in every reachable state in which `Stop` has been called and `Serve` or `Stop`
-has not returned yet, some action of the system itself (not an arrival, not the user) is enabled —
-for every w ≥ 1 and every q, in particular with the queue full and the handler blocked in the
-callback (then a worker can move, because `workC` is closed only after the barrier). -/
+has not returned yet, some action of the system itself (not an arrival, not a fault, not the user)
+is enabled — for every w ≥ 1 and every q, with or without a connection fault, in particular with
+the queue full and the handler blocked in the callback (then a worker can move: `workC` is closed
+only after the handler is out of its send), and with workers queueing for the write mutex (its
+holder can always move). -/
 theorem c20_no_deadlock (w q : Nat) (hw : 1 ≤ w) (s : Sys) (hr : Reachable w q s)
     (hcalled : s.stop ≠ .notCalled) (hnot : ¬ (s.serve = .returned ∧ s.stop = .returned)) :
     ∃ a, a.isSystem = true ∧ (step s a).isSome = true :=
-  progress s (reachable_sinv hr) (by rw [(reachable_params hr).1]; exact hw) hcalled hnot
+  progress s (reachable_sinv hr) (reachable_params hr).2.2.2 (by rw [(reachable_params hr).1]; exact hw) hcalled hnot
+
+/-- The write mutex is released on every path: whenever a worker carries a request (handler
+running, waiting for the mutex, holding it in any of its three states, publishing), some worker
+step is enabled — its own, or that of the holder it waits for. -/
+theorem c20_write_mutex_never_wedges (w q : Nat) (s : Sys) (hr : Reachable w q s) (i : Nat) (u : Wk)
+    (hu : s.workers[i]? = some u) (h1 : u ≠ .idle) (h2 : u ≠ .exited) :
+    ∃ a, a.isWorker = true ∧ (step s a).isSome = true := by
+  obtain ⟨a, ha, _, hen⟩ := worker_progress s (reachable_sinv hr) (reachable_params hr).2.2.2 i u hu h1 h2
+  exact ⟨a, ha, hen⟩
+
+/-- Every worker eventually returns to idle: in a reachable state in which no worker step is
+enabled any more, every worker is at the head of its loop (idle) or has exited. (Worker steps
+strictly decrease `mu`, so this state is reached after finitely many of them.) -/
+theorem c20_workers_return_to_idle (w q : Nat) (s : Sys) (hr : Reachable w q s)
+    (hmax : ∀ a, a.isWorker = true → step s a = none) :
+    ∀ (i : Nat) (u : Wk), s.workers[i]? = some u → u = .idle ∨ u = .exited := by
+  intro i u hu
+  by_cases h1 : u = .idle
+  · exact Or.inl h1
+  · by_cases h2 : u = .exited
+    · exact Or.inr h2
+    · obtain ⟨a, ha, hen⟩ := c20_write_mutex_never_wedges w q s hr i u hu h1 h2
+      rw [hmax a ha] at hen; cases hen
 
 /-- Termination measure: `mu` strictly decreases with EVERY action other than an arrival (so in
 particular with every action after `drainStart`, where arrivals are disabled). -/
@@ -189,9 +231,9 @@ theorem c20_measure_decreases (s s' : Sys) (a : Action) (hs : step s a = some s'
     mu s' < mu s :=
   mu_decreases hs ha
 
-/-- After `drainStart` (the broker no longer has the subscription) every run, under every schedule,
-has at most `mu s` steps. -/
-theorem c20_runs_bounded (w q : Nat) (s : Sys) (hr : Reachable w q s) (hdr : s.active = false)
+/-- Once the broker no longer has the subscription (after `drainStart`) every run, under every
+schedule, has at most `mu s` steps. -/
+theorem c20_runs_bounded (s : Sys) (hdr : s.active = false)
     (as : List Action) (s' : Sys) (h : run s as = some s') : as.length + mu s' ≤ mu s := by
   induction as generalizing s with
   | nil => simp [run] at h; rw [h]; simp
@@ -202,25 +244,12 @@ theorem c20_runs_bounded (w q : Nat) (s : Sys) (hr : Reachable w q s) (hdr : s.a
       have hna : ∀ m, a ≠ .arrive m := by
         intro m hm; subst hm; simp [step, hdr] at h1
       have hdec := mu_decreases h1 hna
-      have hr1 := reachable_step hr h1
-      have hdr1 : s1.active = false := by
-        have hi := reachable_sinv hr
-        have hi1 := reachable_sinv hr1
-        cases hact : s1.active with
-        | false => rfl
-        | true =>
-          have h2 := hi1.act.mp hact
-          have h3 := (step_mono h1).1
-          have : s.active = true := hi.act.mpr (by omega)
-          rw [hdr] at this; cases this
-      have := ih s1 hr1 hdr1 h
+      have := ih s1 ((step_mono h1).2.2.2.2 hdr) h
       simp only [List.length_cons]; omega
     · cases h
 
 /-- Every maximal run ends with `Serve` and `Stop` returned: a state reached after `Stop` was
-called in which no action of the system is enabled has both returned. (Together with
-`c20_runs_bounded`: after `drainStart` every run can be extended only finitely often, and where it
-cannot be extended any more both have returned.) -/
+called in which no action of the system is enabled has both returned. -/
 theorem c20_maximal_runs_end (w q : Nat) (hw : 1 ≤ w) (s : Sys) (hr : Reachable w q s)
     (hcalled : s.stop ≠ .notCalled) (hmax : ∀ a, a.isSystem = true → step s a = none) :
     s.serve = .returned ∧ s.stop = .returned := by
@@ -229,8 +258,8 @@ theorem c20_maximal_runs_end (w q : Nat) (hw : 1 ≤ w) (s : Sys) (hr : Reachabl
   · obtain ⟨a, ha, hen⟩ := c20_no_deadlock w q hw s hr hcalled hnot
     rw [hmax a ha] at hen; cases hen
 
-/-- From every reachable state after `Stop` was called there IS a run of the system alone (no
-further arrivals needed, none excluded before) at whose end `Serve` and `Stop` have returned. -/
+/-- From every reachable state after `Stop` was called there IS a run of the system alone at whose
+end `Serve` and `Stop` have returned. -/
 theorem c20_can_finish (w q : Nat) (hw : 1 ≤ w) (s : Sys) (hr : Reachable w q s) (hcalled : s.stop ≠ .notCalled) :
     ∃ as s', (∀ a ∈ as, a.isSystem = true) ∧ run s as = some s' ∧ s'.serve = .returned ∧ s'.stop = .returned := by
   generalize hn : mu s = n
@@ -258,44 +287,83 @@ theorem c20_can_finish (w q : Nat) (hw : 1 ≤ w) (s : Sys) (hr : Reachable w q 
 
 /-- Why w ≥ 1 is a hypothesis: with no worker and a queue of length 1, two accepted requests and a
 `Stop` lead to a reachable state in which `Serve` is blocked on the barrier, the handler is
-blocked on the full queue, and no action of the system — indeed no action at all except nothing —
-is enabled: a deadlock. (With w ≥ 1 this is impossible: `c20_no_deadlock`.) -/
+blocked on the full queue, and no action of the system is enabled: a deadlock. (With w ≥ 1 this
+is impossible: `c20_no_deadlock`.) -/
 theorem c20_w0_counterexample :
-    ∃ s, Reachable 0 1 s ∧ s.stop ≠ .notCalled ∧ s.serve ≠ .returned ∧ ∀ a, step s a = none := by
+    ∃ s, Reachable 0 1 s ∧ s.stop ≠ .notCalled ∧ s.serve ≠ .returned ∧ ∀ a, a.isSystem = true → step s a = none := by
   refine ⟨_, ⟨[.arrive 0, .arrive 1, .deliver, .deliver, .cbStart, .handlerEnqueue, .callbackDone, .cbStart,
     .stopCall, .serveGotQuit, .drainStart, .flushBarrier], rfl⟩, by decide, by decide, ?_⟩
-  intro a
-  cases a <;> first | rfl | simp [step]
+  intro a ha
+  cases a <;> first | rfl | (cases ha; done) | simp [step]
+
+/-- The code before fix 2a98083 (`guarded = false`: `close(workC)` without `sendMu`): a connection
+fault makes the drain fail while the handler is blocked on the queue; Serve closes `workC` under
+it and the handler's send panics. (With `guarded = true` the panic flag is never set:
+`c20_no_send_on_closed`.) -/
+theorem c20_unguarded_close_counterexample :
+    ∃ s, ReachableP false false 1 0 s ∧ s.panicked = true :=
+  ⟨_, ⟨[.arrive 0, .arrive 1, .deliver, .deliver, .cbStart, .workerTake 0, .callbackDone, .cbStart,
+    .fault, .stopCall, .serveGotQuit, .drainFail, .sendResult, .closeWorkC, .handlerEnqueue], rfl⟩, rfl⟩
+
+/-- The state the re-locking mutation gets stuck in (see `c20_reentrant_lock_counterexample`). -/
+def reentrantDeadlock : Sys :=
+  { q := 1, guarded := true, reentrant := true, active := false, faulty := false, inflight := [],
+    pending := [], cb := .idle, barrier := false, workC := [], closed := true, workers := [.overflow 0],
+    wmu := some 0, serve := .closedQ, stop := .returned, arrived := [0], handed := [0], processed := [0],
+    replied := [], dropped := [], panicked := false }
+
+/-- A mutation of the code (`reentrant = true`: `trapError` answers an oversize reply through the
+LOCKING `SendError` while `SendReply` holds the write mutex): one oversize reply and a `Stop` lead
+to a reachable state in which the worker waits for the mutex it holds, `Serve` waits for the
+worker, and no action of the system is enabled. (The code has `reentrant = false`, regenerated
+expectations aside this is what `c20_write_mutex_never_wedges` and `c20_no_deadlock` exclude.) -/
+theorem c20_reentrant_lock_counterexample :
+    ∃ s, ReachableP true true 1 1 s ∧ s.stop ≠ .notCalled ∧ s.serve ≠ .returned ∧
+      ∀ a, a.isSystem = true → step s a = none := by
+  have hrun : run (initP true true 1 1) [.arrive 0, .deliver, .cbStart, .handlerEnqueue, .callbackDone, .workerTake 0,
+      .workerHandlerDone 0, .workerLock 0, .workerOverflow 0, .stopCall, .serveGotQuit, .drainStart, .flushBarrier,
+      .barrierFires, .sendResult, .stopReturn, .closeWorkC] = some reentrantDeadlock := by rfl
+  refine ⟨reentrantDeadlock, ⟨_, hrun⟩, by decide, by decide, ?_⟩
+  intro a ha
+  cases a <;> first | rfl | (cases ha; done) | (rename_i i; cases i <;> simp [step, reentrantDeadlock])
 
 /-! Non-vacuity: concrete runs with the queue shorter than the burst. -/
 
 /-- w = 1, q = 1, a burst of three requests, `Stop` called while the handler is blocked on the full
 queue with a third request still pending in nats.go: the run ends with `Serve` and `Stop` returned
-and all three requests processed and replied. -/
+and all three requests processed and replied (the second one through the oversize path). -/
 example : ∃ s, run (init 1 1)
     [.arrive 0, .arrive 1, .arrive 2, .deliver, .deliver, .deliver, .cbStart, .handlerEnqueue, .callbackDone,
      .workerTake 0, .cbStart, .handlerEnqueue, .callbackDone, .cbStart,      -- worker busy with 0, queue = [1], handler blocked with 2
      .stopCall, .serveGotQuit, .drainStart, .flushBarrier,
-     .workerReply 0, .workerTake 0, .handlerEnqueue, .callbackDone, .barrierFires, .sendResult, .stopReturn,
-     .closeWorkC, .workerReply 0, .workerTake 0, .workerReply 0, .workerExit 0, .serveReturn] = some s ∧
+     .workerHandlerDone 0, .workerLock 0, .workerWriteOk 0, .workerUnlock 0, .workerReply 0,
+     .workerTake 0, .handlerEnqueue, .callbackDone, .barrierFires, .sendResult, .stopReturn, .closeWorkC,
+     .workerHandlerDone 0, .workerLock 0, .workerOverflow 0, .workerErrReply 0, .workerUnlock 0, .workerReply 0,
+     .workerTake 0, .workerHandlerDone 0, .workerLock 0, .workerWriteOk 0, .workerUnlock 0, .workerReply 0,
+     .workerExit 0, .serveReturn] = some s ∧
     s.serve = .returned ∧ s.stop = .returned ∧ s.processed = [0, 1, 2] ∧ s.replied = [0, 1, 2] :=
   ⟨_, rfl, rfl, rfl, rfl, rfl⟩
 
-/-- q = 0 (unbuffered `workC`): the only way through is the direct hand-off to a waiting worker. -/
-example : ∃ s, run (init 2 0)
-    [.arrive 5, .arrive 3, .deliver, .cbStart, .stopCall, .serveGotQuit, .workerTake 1, .callbackDone, .deliver,
-     .drainStart, .flushBarrier, .cbStart, .workerTake 0, .callbackDone, .barrierFires, .sendResult,
-     .closeWorkC, .workerReply 0, .workerReply 1, .workerExit 0, .workerExit 1, .serveReturn, .stopReturn] = some s ∧
-    s.serve = .returned ∧ s.stop = .returned ∧ s.replied = [3, 5] :=
-  ⟨_, rfl, rfl, rfl, rfl⟩
+/-- A connection fault while the handler is blocked (q = 0, the worker busy): the drain fails, Serve
+waits for the handler to get out of its send before it closes the queue, a request whose callback
+comes later is turned away; everything the server had taken over is processed exactly once. -/
+example : ∃ s, run (init 1 0)
+    [.arrive 0, .arrive 1, .arrive 2, .deliver, .deliver, .deliver, .cbStart, .workerTake 0, .callbackDone, .cbStart,
+     .fault, .stopCall, .serveGotQuit, .drainFail, .sendResult, .stopReturn] = some s ∧
+    step s .closeWorkC = none ∧
+    ∃ s', run s [.workerHandlerDone 0, .workerLock 0, .workerWriteOk 0, .workerUnlock 0, .workerReply 0, .workerTake 0,
+      .callbackDone, .closeWorkC, .cbStart, .workerHandlerDone 0, .workerLock 0, .workerWriteOk 0, .workerUnlock 0,
+      .workerReply 0, .workerExit 0, .serveReturn] = some s' ∧
+      s'.serve = .returned ∧ s'.handed = [0, 1] ∧ s'.replied = [0, 1] ∧ s'.dropped = [2] ∧ s'.panicked = false :=
+  ⟨_, rfl, rfl, _, rfl, rfl, rfl, rfl, rfl, rfl⟩
 
-/-- In the blocked situation of the first example the handler's enqueue is indeed disabled (queue
-full) and the barrier cannot fire, while a worker step is enabled. -/
-example : ∃ s, run (init 1 1)
-    [.arrive 0, .arrive 1, .arrive 2, .deliver, .deliver, .deliver, .cbStart, .handlerEnqueue, .callbackDone,
-     .workerTake 0, .cbStart, .handlerEnqueue, .callbackDone, .cbStart, .stopCall, .serveGotQuit, .drainStart,
-     .flushBarrier] = some s ∧
-    step s .handlerEnqueue = none ∧ step s .barrierFires = none ∧ (step s (.workerReply 0)).isSome = true :=
-  ⟨_, rfl, rfl, rfl, rfl⟩
+/-- Two workers queueing for the write mutex: the second one's `Lock` is not enabled while the first
+holds it, and is after the first has unlocked. -/
+example : ∃ s, run (init 2 2)
+    [.arrive 0, .arrive 1, .deliver, .deliver, .cbStart, .handlerEnqueue, .callbackDone, .cbStart, .handlerEnqueue,
+     .callbackDone, .workerTake 0, .workerTake 1, .workerHandlerDone 0, .workerHandlerDone 1, .workerLock 1] = some s ∧
+    step s (.workerLock 0) = none ∧
+    ∃ s', run s [.workerWriteOk 1, .workerUnlock 1] = some s' ∧ (step s' (.workerLock 0)).isSome = true :=
+  ⟨_, rfl, rfl, _, rfl, rfl⟩
 
 end FV.C20
